@@ -351,6 +351,12 @@ func (r *refRenderer) inline(in *Inline) {
 			}
 		}
 	case SoftLineBreakKind:
+		if in.Span().Len() == 0 {
+			// the line ending supplied for a code block that ends at end of input:
+			// code block contents are verbatim, no soft-break setting applies
+			r.raw([]byte("\n"))
+			break
+		}
 		switch r.cfg.soft {
 		case SoftBreakHarden:
 			r.hardBreak()
@@ -358,11 +364,7 @@ func (r *refRenderer) inline(in *Inline) {
 			r.raw([]byte(" "))
 		default:
 			sp := in.Span()
-			if sp.Len() > 0 {
-				r.raw(r.src[sp.Start:sp.End])
-			} else {
-				r.raw([]byte("\n"))
-			}
+			r.raw(r.src[sp.Start:sp.End])
 		}
 	case HardLineBreakKind:
 		r.hardBreak()
